@@ -5,6 +5,7 @@
 from vlib.stubs import apply_common
 apply_common()
 from vlib.sel import sel, concrete
+import copy
 import gc
 import logging
 import os
@@ -118,7 +119,15 @@ def _ranges(j, mask):
         if set(part.dsp.nodes) != nodes:
             return False
         again = part.calculate()
-        return all(norm(again[o]) == norm(psol[o]) for o in outs)
+        if not all(norm(again[o]) == norm(psol[o]) for o in outs):
+            return False
+        # ... also for a copy of the partial model (restored without its cells and books)
+        twin = copy.deepcopy(part)
+        twin.finish()
+        if set(twin.dsp.nodes) != nodes:
+            return False
+        tsol = twin.calculate()
+        return all(norm(tsol[o]) == norm(psol[o]) for o in outs)
     finally:
         os.chdir(cwd)
         shutil.rmtree(tmp, ignore_errors=True)
